@@ -4,6 +4,7 @@ import Heathcliff.Proofs.C04T
 import Heathcliff.Proofs.C01O
 import Heathcliff.Proofs.C04M
 import Heathcliff.Proofs.GenGalois
+import Heathcliff.Proofs.GenGalois2
 
 /- Property theorems only (statements verbatim; proofs are the helper lemmas of Heathcliff/Proofs). -/
 namespace HC.C04
@@ -155,6 +156,22 @@ theorem gen_get_elts_all_eq (k : Nat) (hk1 : 1 ≤ k) (hk : k ≤ 31) : GenG.get
 theorem gen_get_index_from_elt_eq (g : Nat) :
     GenG.get_index_from_elt g = if g % 2 = 1 then .ok ((g - 1) / 2) else .error .refused := HC.gx_get_index_from_elt_eq g
 
+
+/-! ### translator tie, phase 3 (Proofs/GenGalois2.lean): `GaloisTool::apply` (index / sign loop) and `util::reverse_bits_u32`.
+     `apply`: tool fields `coeff_count = 2^k`, `coeff_count_power = k`, zero-initialised result buffer.  `2^k ≤ operand.len()`: the code's
+     guard is `i <= operand.len()` (not `<`), so a shorter operand panics at `i = len` where the model reads 0; `2^k·g < 2^64`: the
+     running `index_raw += galois_elt` is overflow-checked. -/
+theorem gen_galois_apply_eq (a : List Nat) (g : Nat) (m : Modulus) (k : Nat) (hk : k < 64) (ha : 2^k ≤ a.length) (hg : 2^k * g < 2^64) :
+    GenG.galois_apply a g m (List.replicate (2^k) 0) (2^k) k = (galoisApply k a.toArray g m >>= fun r => pure r.toList) :=
+  HC.gy_galois_apply_eq a g m k hk ha hg
+/-- the generated loop from any position `i` (running index `i·g`) = the model's fold over the remaining indices -/
+theorem gen_galois_apply_loop_eq (a : List Nat) (g : Nat) (m : Modulus) (k : Nat) (hk : k < 64) (ha : 2^k ≤ a.length)
+    (hg : 2^k * g < 2^64) (cnt i : Nat) (res : List Nat) (h1 : i + cnt = 2^k) (h2 : res.length = 2^k) :
+    GenG.galois_apply_loop1 a g m (2^k - 1) k cnt i res (i * g) = (List.range' i cnt).foldlM (gy_applyStep (2^k) a g m) res :=
+  HC.gy_apply_loop_eq a g m k hk ha hg cnt i res h1 h2
+/-- `reverse_bits_u32(x, bc)` = `brev bc x` (`u32::reverse_bits` is the primitive `revBits 32`) -/
+theorem gen_reverse_bits_u32_eq (x bc : Nat) (hbc : bc ≤ 32) (hx : x < 2^bc) : GenW.reverse_bits_u32 x bc = .ok (brev bc x) :=
+  HC.gy_reverse_bits_u32_eq x bc hbc hx
 
 /-! ### key switching of the model end to end: phase(ct') = phase(ct) + target*s' + nu modulo every level modulus / modulo Q / against Spec.phase, explicit noise bound, BGV branch (nu = 0 mod t), relinearize and applyGalois corollaries (phase of the result = sigma_g(phase) + nu)
     (statements, hypothesis bundles and non-vacuity instances: Heathcliff/Proofs/C04K.lean, section "Property theorems") -/
